@@ -400,6 +400,11 @@ def check_model_failed_fit(ctx, c):
     elif c["failure"] == "features":
         Xb[bad] = np.hstack([Xs[bad], Xs[bad][:, :1]])
         wbad = c["warmup"]
+    elif c["failure"] == "raise":
+        # a node of the model raises something that is neither a ValueError nor a LinAlgError while the bad sequence runs
+        Xb[bad] = Xs[bad].copy()
+        Xb[bad][min(c["warmup"] + 1, len(Xb[bad]) - 1), :] = 1e15
+        wbad = c["warmup"]
     elif c["failure"] == "nan":
         # every sequence is accumulated; the failure comes in the final solve
         Yb[bad] = Ys[bad].copy()
@@ -409,14 +414,22 @@ def check_model_failed_fit(ctx, c):
         Yb[bad] = np.hstack([Ys[bad], Ys[bad]])
         wbad = c["warmup"]
 
+    def guarded(x):
+        if np.any(np.abs(x) > 1e12):      # (beyond the blown-up recurrent matrices of finding K6 too)
+            raise FloatingPointError("input out of the sensor's range")
+        return np.tanh(x)
+    rkw = {"activation": guarded} if c["failure"] == "raise" else {}
+
     def mk():
         if c["model"] == "node":
             return N.Ridge(ridge=1e-3)
         if c["model"] == "esn":
-            return N.ESN(units=6, seed=c["seed"], ridge=1e-3, workers=1)
+            if c.get("workers", 1) != 1:
+                return N.ESN(units=6, seed=c["seed"], ridge=1e-3, workers=c["workers"], backend="threading", **rkw)
+            return N.ESN(units=6, seed=c["seed"], ridge=1e-3, workers=1, **rkw)
         if c["model"] == "deep":
-            return N.Reservoir(6, seed=c["seed"]) >> N.Ridge(ridge=1e-3, name=None) >> N.Reservoir(4, seed=c["seed"] + 1) >> N.Ridge(ridge=1e-3)
-        return N.Reservoir(6, seed=c["seed"]) >> N.Ridge(ridge=1e-3)
+            return N.Reservoir(6, seed=c["seed"], **rkw) >> N.Ridge(ridge=1e-3, name=None) >> N.Reservoir(4, seed=c["seed"] + 1) >> N.Ridge(ridge=1e-3)
+        return N.Reservoir(6, seed=c["seed"], **rkw) >> N.Ridge(ridge=1e-3)
 
     def weights(m):
         if c["model"] == "node":
@@ -465,9 +478,15 @@ def check_model_failed_fit(ctx, c):
 
 def gen_model_failed_fit(g):
     K = g.randint(2, 4)
-    return {"kind": "model_failed_fit", "model": g.choice(["chain", "chain", "esn", "esn", "deep", "node"]), "failure": g.choice(["short", "features", "targets", "nan"]),
-            "K": K, "lens": [g.randint(8, 14) for _ in range(K)], "bad": g.randint(1, K - 1), "warmup": g.choice([0, 2]),
-            "seed": g.randint(0, 10 ** 6), "dseed": g.randint(0, 10 ** 6), "prior": g.chance(0.5)}
+    c = {"kind": "model_failed_fit", "model": g.choice(["chain", "chain", "esn", "esn", "esn", "deep", "node"]),
+         "failure": g.choice(["short", "features", "targets", "nan", "raise"]),
+         "K": K, "lens": [g.randint(8, 14) for _ in range(K)], "bad": g.randint(1, K - 1), "warmup": g.choice([0, 2]),
+         "seed": g.randint(0, 10 ** 6), "dseed": g.randint(0, 10 ** 6), "prior": g.chance(0.5)}
+    if c["model"] == "node" and c["failure"] == "raise":
+        c["failure"] = "short"          # (a lone readout has no node in front of it that could raise)
+    if c["model"] == "esn":
+        c["workers"] = g.choice([1, 1, 2, -1])      # several workers (threads): the sums live in the readout they share
+    return c
 
 
 def check_case(ctx, c):
@@ -531,6 +550,49 @@ def check_clone_session(ctx, g):
             return
 
 
+
+def _guarded_tanh(x):
+    if np.any(np.abs(x) > 1e12):
+        raise FloatingPointError("input out of range")
+    return np.tanh(x)
+
+
+def check_late_workers(ctx, trial):
+    """a parallel ESN.fit (threads) in which a SHORT sequence fails at once while two long ones are still running: the
+    workers that outlive the failed fit must not add their sums to the readout it has cleaned - the next fit is the fit of a
+    fresh ESN on its own data (defect D40, deterministic witness)"""
+    import time
+    from reservoirpy.nodes import ESN
+    ob = "late_workers"
+    c = {"kind": "late_workers", "trial": trial}
+    ctx.count(c, nontrivial=True, obligation=ob)
+    ctx.stat("failed threaded ESN.fit with workers still running")
+    rng = np.random.default_rng(100 + trial)
+
+    def data(L):
+        x = rng.uniform(-1, 1, (L, 2))
+        return x, np.tanh(x.sum(axis=1, keepdims=True))
+    e = ESN(units=20, sr=0.9, lr=0.5, ridge=1e-3, seed=1, workers=3, backend="threading", activation=_guarded_tanh)
+    long1, long2, bad = data(3000), data(3000), data(5)
+    bad[0][2, :] = 1e15
+    r = common.exc_class(lambda: e.fit([bad[0], long1[0], long2[0]], [bad[1], long1[1], long2[1]]))
+    if r[0] == "ok":
+        ctx.stat("late_workers: the poisoned sequence did not fail")
+        return
+    time.sleep(0.5)
+    good = [data(50) for _ in range(3)]
+    f = ESN(units=20, sr=0.9, lr=0.5, ridge=1e-3, seed=1, workers=1, activation=_guarded_tanh)
+    r2 = common.exc_class(lambda: (e.fit([g_[0] for g_ in good], [g_[1] for g_ in good]), f.fit([g_[0] for g_ in good], [g_[1] for g_ in good])))
+    if r2[0] != "ok":
+        ctx.violation(f"after a failed threaded ESN.fit the same ESN cannot be fitted on good data: {r2[1]}", c, obligation=ob)
+        return
+    d = float(np.max(np.abs(np.asarray(e.readout.Wout) - np.asarray(f.readout.Wout))))
+    if d > 1e-8 * max(1.0, float(np.max(np.abs(f.readout.Wout)))):
+        ctx.violation("a threaded ESN.fit failed on a short sequence while two long ones were still running; the next fit of that ESN differs "
+                      f"from the fit of a fresh ESN on the same data by {d:.3g}: the workers that outlived the failed fit added their sums to the "
+                      "readout after it had been cleaned", c, obligation=ob)
+
+
 def run(ctx):
     ctx.notes["rule"] = ("Ridge histories of 2-7 operations (run, partial_fit / fit on 1-3 sequences with an injected failure at a random sequence in 30% of "
                          "them, fit() without data, freeze / unfreeze); frame: reservoir >> Ridge | RLS | LMS | [RLS, LMS] models, digests of every array parameter of "
@@ -552,6 +614,8 @@ def run(ctx):
         check_default_buffers_failed(ctx, g)
     for _ in range(ctx.n(12, 120)):
         check_clone_session(ctx, g)
+    for t in range(ctx.n(2, 8)):
+        check_late_workers(ctx, t)
 
 
 def replay(ctx, data):
@@ -564,6 +628,8 @@ def replay(ctx, data):
     elif c.get("kind") == "default_buffers_failed":
         for _ in range(4):
             check_default_buffers_failed(ctx, ctx.gen)
+    elif c.get("kind") == "late_workers":
+        check_late_workers(ctx, c.get("trial", 0))
     elif c.get("kind") == "clone_session":
         for _ in range(12):
             check_clone_session(ctx, ctx.gen)
